@@ -20,6 +20,7 @@ import (
 	"errors"
 	"fmt"
 	"os"
+	"runtime"
 	"sort"
 	"time"
 
@@ -551,11 +552,12 @@ func run(c Sx) Result {
 		e.db = pathdb.New(disk, &pathdb.Config{StateHistory: limit, WriteBufferSize: wb, NoAsyncFlush: !async,
 			NoAsyncGeneration: true, TrienodeHistory: -1, TrieCleanSize: 0, StateCleanSize: 0,
 			EnableStateIndexing: true, NoHistoryIndexDelay: true}, false)
+		// busy poll with a wall-clock bound: time.Sleep has millisecond granularity here
 		ok := false
-		for i := 0; i < 400 && !ok; i++ {
+		for deadline := time.Now().Add(4 * time.Millisecond); !ok && time.Now().Before(deadline); {
 			ok = e.db.VerifC18IndexerInited()
 			if !ok {
-				time.Sleep(50 * time.Microsecond)
+				runtime.Gosched()
 			}
 		}
 		if ok {
@@ -1318,9 +1320,9 @@ func genCase(r *Rng, maxTr int) Sx {
 
 func gen(r *Rng, tier string, emit func(Sx)) {
 	r = NewRng(r.U64())
-	n, maxTr := 750, 60
+	n, maxTr := 1200, 60
 	if tier == "thorough" {
-		n, maxTr = 7500, 200
+		n, maxTr = 10000, 200
 	}
 	for i := 0; i < n; i++ {
 		m := maxTr
